@@ -45,6 +45,9 @@ CLAIMS = {
  "C11": dict(design="5/C11", tech=E1,
    text="Every decorator tree up to a node/depth bound over {sink, StreamFailFast, StreamToQueue, TimestampingStreamResult, CopyStreamResult x1..3, StreamTagger (3 variants) x1..3} is fed status events (status x tags container incl. frozenset x timestamp x route code x symbolic chunk) and short event sequences; each leaf's log is compared with the composition of one-line specs along its path; the caller's tag container is snapshotted before/after. Exhaustive within the bound.",
    note="Clock stubbed by replacing testtools.testresult.real.datetime; sinks are the recording doubles."),
+ "C15": dict(design="5/C15", tech=E1 + " over a virtual-time reactor",
+   text="Spinner.run on a deterministic virtual-time reactor: function behaviour x Deferred delay 0..3 x timeout 1..3 x stop request at 0..3/never (every order and tie of fire, timeout, stop) x left-over delayed calls / selectables x pre-installed signal handlers x second run with/without clear_junk; result compared with a first-event-wins reference, and afterwards reactor not running, no pending calls or selectables, junk reported, reactor.stop and signal handlers restored; re-entry refused. Exhaustive over the selector space.",
+   note="VReactor = twisted.internet.task.Clock + run/crash/stop/callWhenRunning/removeAll/iterate; the real reactor and wall-clock timing are outside the claim."),
  "C16": dict(design="5/C16", tech=E1 + "; symbolic byte payloads, chunk sizes and offsets",
    text="Chunk reader on symbolic data bytes/chunk sizes/offsets (all values within length bound), real-file reader, chunk-independent decoding for every pair of cut positions over a class-representative alphabet, Content equality on symbolic bytes, ContentType MIME round trip over a token/value alphabet, snapshot semantics; exhaustive within the bounds.",
    note="Stream modelled by ModelStream (io.BytesIO contract); codecs are CPython's (text is a finite alphabet); open known finding F9 (charset containing a comma) is excluded by class."),
